@@ -7,6 +7,10 @@ type nat =
 
 val option_map : ('a1 -> 'a2) -> 'a1 option -> 'a2 option
 
+type ('a, 'b) sum =
+| Inl of 'a
+| Inr of 'b
+
 val fst : ('a1 * 'a2) -> 'a1
 
 val snd : ('a1 * 'a2) -> 'a2
@@ -43,6 +47,10 @@ val rev : 'a1 list -> 'a1 list
 
 val map : ('a1 -> 'a2) -> 'a1 list -> 'a2 list
 
+val flat_map : ('a1 -> 'a2 list) -> 'a1 list -> 'a2 list
+
+val fold_left : ('a1 -> 'a2 -> 'a1) -> 'a2 list -> 'a1 -> 'a1
+
 val fold_right : ('a2 -> 'a1 -> 'a1) -> 'a1 -> 'a2 list -> 'a1
 
 val existsb : ('a1 -> bool) -> 'a1 list -> bool
@@ -50,6 +58,8 @@ val existsb : ('a1 -> bool) -> 'a1 list -> bool
 val forallb : ('a1 -> bool) -> 'a1 list -> bool
 
 val filter : ('a1 -> bool) -> 'a1 list -> 'a1 list
+
+val find : ('a1 -> bool) -> 'a1 list -> 'a1 option
 
 val combine : 'a1 list -> 'a2 list -> ('a1 * 'a2) list
 
@@ -75,6 +85,14 @@ type z =
 
 module Pos :
  sig
+  type mask =
+  | IsNul
+  | IsPos of positive
+  | IsNeg
+ end
+
+module Coq_Pos :
+ sig
   val succ : positive -> positive
 
   val add : positive -> positive -> positive
@@ -82,6 +100,21 @@ module Pos :
   val add_carry : positive -> positive -> positive
 
   val pred_double : positive -> positive
+
+  type mask = Pos.mask =
+  | IsNul
+  | IsPos of positive
+  | IsNeg
+
+  val succ_double_mask : mask -> mask
+
+  val double_mask : mask -> mask
+
+  val double_pred_mask : positive -> mask
+
+  val sub_mask : positive -> positive -> mask
+
+  val sub_mask_carry : positive -> positive -> mask
 
   val mul : positive -> positive -> positive
 
@@ -101,6 +134,8 @@ module Pos :
 module N :
  sig
   val add : n -> n -> n
+
+  val sub : n -> n -> n
 
   val mul : n -> n -> n
 
@@ -141,6 +176,8 @@ module Z :
   val sub : z -> z -> z
 
   val compare : z -> z -> comparison
+
+  val leb : z -> z -> bool
 
   val ltb : z -> z -> bool
 
@@ -238,6 +275,10 @@ val beq : bytes -> bytes -> bool
 
 val is_prefix : bytes -> bytes -> bool
 
+val contains : bytes -> bytes -> bool
+
+val is_suffix : bytes -> bytes -> bool
+
 val is_digit : n -> bool
 
 val is_utn_byte : n -> bool
@@ -266,9 +307,61 @@ val ev_IsSingle : event -> bool
 
 val ev_ToLexemeType : event -> lexkind option
 
+val dir_Jsight : n
+
+val dir_Title : n
+
+val dir_Version : n
+
+val dir_Server : n
+
+val dir_BaseURL : n
+
+val dir_URL : n
+
+val dir_Get : n
+
+val dir_Post : n
+
+val dir_Put : n
+
+val dir_Patch : n
+
+val dir_Delete : n
+
+val dir_Body : n
+
+val dir_Request : n
+
 val dir_HTTPResponseCode : n
 
+val dir_Query : n
+
+val dir_Type : n
+
+val dir_Enum : n
+
+val dir_Macro : n
+
+val dir_Paste : n
+
+val dir_Protocol : n
+
+val dir_Method : n
+
+val dir_TAG : n
+
+val dir_Tags : n
+
+val dir_OperationID : n
+
 val dir_keywords : string list
+
+val dir_root_allowed : n list
+
+val dir_http_methods : n list
+
+val dir_context_table : (n * n list) list
 
 type lexeme = { lk : lexkind; lb : z; le : z }
 
@@ -756,3 +849,368 @@ val scan_case :
   list
 
 val state_name : state -> string
+
+val digits_value : bytes -> n
+
+val is_http_response_code : bytes -> bool
+
+val indexed_keywords : (n * bytes) list
+
+val new_directive_type : bytes -> n option
+
+val mem_N : n -> n list -> bool
+
+val is_http_request_method : n -> bool
+
+val is_allowed_for_root : n -> bool
+
+val is_allowed_in : n -> n -> bool
+
+type icond =
+| IFirstByte of n
+| IEquals of n list
+| IContains of n list
+| IHasPrefix of n list
+| IHasSuffix of n list
+| ISegmentIn of n list list
+| IOr of icond * icond
+| IAnd of icond * icond
+
+val include_checks : (icond * string) list
+
+val jerr_AnnotationIsForbiddenForTheDirective : string
+
+val jerr_ContextNotClosed : string
+
+val jerr_DuplicateNames : string
+
+val jerr_IncludeDirectiveErr : string
+
+val jerr_IncorrectDirectiveContext : string
+
+val jerr_IncorrectParameter : string
+
+val jerr_MacroIsEmpty : string
+
+val jerr_MacroNotFound : string
+
+val jerr_ParametersIsAlreadyDefined : string
+
+val jerr_RecursionIsProhibited : string
+
+val jerr_RequiredParameterNotSpecified : string
+
+val jerr_ThereIsNoExplicitContextForClosure : string
+
+val jerr_UnknownDirective : string
+
+type pkey =
+| KPath
+| KSchemaNotation
+| KType
+| KName
+| KFormat
+| KQueryExample
+| KVersion
+| KTitle
+| KProtocolName
+| KMethodName
+| KTagName
+| KOperationId
+
+val pkey_eqb : pkey -> pkey -> bool
+
+val pkey_name : pkey -> string
+
+type coords = { co_file : n; co_begin : z; co_end : z }
+
+type trace = (n * z) list
+
+type dir = { d_kind : n; d_keyword : bytes; d_kw : coords;
+             d_named : (pkey * bytes) list; d_unnamed : bytes list;
+             d_annot : bytes; d_body : coords option; d_explicit : bool;
+             d_trace : trace; d_children : dir list }
+
+val with_children : dir -> dir list -> dir
+
+val named : dir -> pkey -> bytes
+
+val has_named : dir -> pkey -> bool
+
+type cmsg = { m_fmt : string; m_args : bytes list; m_suffix : (n * z) list }
+
+val mkMsg : string -> bytes list -> cmsg
+
+type cerr = { e_msg : cmsg; e_file : n; e_index : z; e_trace : trace }
+
+type cpanic =
+| CPNilCurrentDirective
+| CPEmptyIncludeName
+| CPLexemeValue
+| CPScanner of panic
+| CPOther of string
+
+type 'a cres =
+| COk of 'a
+| CErr of cerr
+| CPanic of cpanic
+| CFuel
+
+val str : string -> bytes
+
+val msg1 : string -> cmsg
+
+val is_trim_space : n -> bool
+
+val is_re_space : n -> bool
+
+val drop_while : (n -> bool) -> bytes -> bytes
+
+val trim_space : bytes -> bytes
+
+val collapse_spaces : bytes -> bool -> bytes
+
+val annotation : bytes -> bytes
+
+val is_schema_notation : bytes -> bool
+
+val is_array_of_types : bytes -> bool
+
+type append_res =
+| ASet of pkey * bytes
+| AUnnamed of bytes
+| ABad of bytes
+
+val kind_in : n -> n list -> bool
+
+val append_parameter_kind : n -> bytes -> append_res
+
+val append_parameter : dir -> bytes -> (dir, cmsg) sum
+
+type path = nat list
+
+val node_at : dir list -> path -> dir option
+
+val update_nth : 'a1 list -> nat -> ('a1 -> 'a1) -> 'a1 list
+
+val append_child : dir list -> path -> dir -> dir list * nat
+
+val parent_path : path -> path option
+
+val dir_error : dir -> cmsg -> cerr
+
+val kind_name : n -> bytes
+
+val incorrect_context : dir -> cerr
+
+val incorrect_context_path : dir -> cerr
+
+val attach :
+  nat -> dir list -> path option -> dir -> (dir list * path option) cres
+
+val attach_fuel : path option -> nat
+
+val close_explicit : nat -> dir list -> path option -> path option option
+
+val has_unclosed : nat -> dir list -> path option -> bool
+
+type fsentry =
+| FFile of bytes
+| FDir
+
+type fsmap = (bytes * fsentry) list
+
+val fs_lookup : fsmap -> bytes -> fsentry option
+
+val split_on : n -> bytes -> bytes -> bytes list
+
+val segments : bytes -> bytes list
+
+val dot : n list
+
+val dotdot : n list
+
+val clean_segs : bytes list -> bytes list -> bytes list
+
+val join_segs : bytes list -> bytes
+
+val join_dir : bytes -> bytes -> bytes
+
+val eval_icond : icond -> bytes -> bool option
+
+val validate_include : (icond * string) list -> bytes -> string option option
+
+val newline_symbol_aux : bytes -> n option -> n
+
+val newline_symbol : bytes -> n
+
+val count_lines : n -> bytes -> z -> z -> z * z
+
+val line_and_column : bytes -> z -> z * z
+
+type sitem = { si_file : n; si_conf : conf; si_at : z }
+
+type cstate = { cs_forest : dir list; cs_ctx : path option;
+                cs_cur : dir option; cs_file : n; cs_conf : conf;
+                cs_stack : sitem list; cs_tracers : (bytes * trace) list;
+                cs_files : (bytes * bytes) list;
+                cs_log : (string * bytes) list }
+
+val file_name : cstate -> n -> bytes
+
+val file_content : cstate -> n -> bytes
+
+val live_trace : cstate -> trace
+
+val with_live_trace : cstate -> cerr -> cerr
+
+val scan_next :
+  (string * stmt) list -> cond -> cond -> (bytes -> okind -> z -> olen_res)
+  -> cstate -> (lexeme option * conf) res
+
+val set_conf : cstate -> conf -> cstate
+
+val set_cur_dir : cstate -> dir option -> cstate
+
+val set_tree : cstate -> dir list -> path option -> cstate
+
+val add_log : cstate -> string -> bytes -> cstate
+
+val core_error : cstate -> cmsg -> z -> cerr
+
+val scan_error : cstate -> serr -> cerr
+
+val process_current : cstate -> cstate cres
+
+val directive_tracer : cstate -> trace * cstate
+
+val lex_coords : cstate -> lexeme -> coords
+
+val lex_value : cstate -> lexeme -> bytes option
+
+val jsight_kw : bytes
+
+val include_kw : bytes
+
+val process_keyword : cstate -> lexeme -> cstate cres
+
+val process_parameter : cstate -> lexeme -> cstate cres
+
+val process_annotation : cstate -> lexeme -> cstate cres
+
+val process_body : cstate -> lexeme -> cstate cres
+
+val process_context_begin : cstate -> cstate cres
+
+val process_context_end : cstate -> cstate cres
+
+val core_next : cstate -> lexeme -> cstate cres
+
+val lexeme_error : cstate -> lexeme -> cmsg -> cerr
+
+val fname : bytes
+
+val process_include :
+  (string * stmt) list -> cond -> cond -> fsmap -> (bytes -> okind -> z ->
+  olen_res) -> state -> cstate -> lexeme -> cstate cres * cstate
+
+val is_include : cstate -> lexeme -> bool
+
+val process_eof : cstate -> cstate cres
+
+type sres =
+| SDone of cstate
+| SErr of cerr * cstate
+| SPanic of cpanic * cstate
+| SFuel
+
+val lift : cstate -> cstate cres -> (cstate -> sres) -> sres
+
+val scan_project :
+  (string * stmt) list -> cond -> cond -> fsmap -> (bytes -> okind -> z ->
+  olen_res) -> state -> nat -> cstate -> sres
+
+val initial_cstate : state -> bytes -> bytes -> cstate
+
+type macros = (bytes * dir) list
+
+val macro_lookup : macros -> bytes -> dir option
+
+val required_name : dir -> cerr
+
+val add_macro : macros -> dir -> macros cres
+
+val collect_macro : dir list -> dir list -> macros -> (dir list * macros) cres
+
+val find_paste : nat -> bytes -> dir -> cerr option
+
+val check_recursion : nat -> macros -> cerr list
+
+type xstate = { x_forest : dir list; x_ctx : path option; x_enums : bytes list }
+
+val wrap_error : dir -> cerr -> cerr
+
+val build_rule : (coords -> (n * z) option) -> xstate -> dir -> xstate cres
+
+val build_rules :
+  (coords -> (n * z) option) -> xstate -> dir list -> xstate cres
+
+val expand_dir :
+  (coords -> (n * z) option) -> macros -> nat -> xstate -> dir -> xstate cres
+
+val expand_list :
+  (coords -> (n * z) option) -> macros -> nat -> xstate -> dir list -> xstate
+  cres
+
+type expanded = { ex_roots : dir list; ex_macros : macros;
+                  ex_forest : dir list; ex_enums : bytes list }
+
+type xres =
+| XOk of expanded
+| XErr of cerr
+| XErrOneOf of cerr list
+| XPanic of cpanic
+| XFuel
+
+val compile_macros : (coords -> (n * z) option) -> nat -> dir list -> xres
+
+type otable = (((bytes * okind) * z) * olen_res) list
+
+type etable = (((bytes * z) * z) * (n * z)) list
+
+val olen_lookup : otable -> bytes -> okind -> z -> olen_res
+
+type rloc = { rl_name : bytes; rl_index : z; rl_line : z; rl_col : z }
+
+type rerr = { re_fmt : string; re_args : bytes list; re_suffix : rloc list;
+              re_loc : rloc; re_trace : rloc list }
+
+val render_loc : (bytes * bytes) list -> n -> z -> rloc
+
+val render_err : (bytes * bytes) list -> cerr -> rerr
+
+type rdir = { rd_kind : n; rd_keyword : bytes; rd_file : bytes; rd_begin : 
+              z; rd_end : z; rd_named : (string * bytes) list;
+              rd_unnamed : bytes list; rd_annot : bytes;
+              rd_body : ((bytes * z) * z) option; rd_explicit : bool;
+              rd_trace : rloc list; rd_children : rdir list }
+
+val fname_of : (bytes * bytes) list -> n -> bytes
+
+val render_dir : nat -> (bytes * bytes) list -> dir -> rdir
+
+type tree_result =
+| TScanErr of rerr * (string * bytes) list
+| TScanPanic of cpanic * (string * bytes) list
+| TFuel
+| TScanned of rdir list * (string * bytes) list * tree_phase2
+and tree_phase2 =
+| T2Ok of rdir list * bytes list * rdir list * bytes list
+| T2Err of rerr
+| T2ErrOneOf of rerr list
+| T2Panic of cpanic
+| T2Fuel
+
+val render_depth : nat
+
+val tree_case : fsmap -> bytes -> otable -> etable -> nat -> tree_result
